@@ -130,3 +130,57 @@ def draw_spec(rng, iid, cfg, side=None, model=None, sources=('rec', 'rec', 'gen'
         else:
             spec['up'] = None
     return spec
+
+
+def make_hostile(rng, spec, timed=True, failures=False):
+    """Adds cancels at random instants (including immediately), application errors, never-answering
+    responders, completion racing cancel and late no-op actions to a spec (all protocol-legal)."""
+    model = spec['model']
+    if model == 'rr':
+        x = rng.random()
+        if x < 0.3:
+            spec['rr_cancel'] = draw_wait(rng, timed)
+        elif x < 0.4:
+            spec['rr_cancel'] = ('none',)
+        y = rng.random()
+        if y < 0.25:
+            spec['resp']['outcome'] = 'error'
+        elif y < 0.35:
+            spec['resp']['outcome'] = 'never'
+            spec.setdefault('rr_cancel', draw_wait(rng, timed))
+        if failures and rng.random() < 0.2:
+            spec['resp']['fail'] = rng.choice(['raise-before-await', 'raise-after-await', 'failed-future'])
+    elif model in ('stream', 'channel'):
+        resp = spec['resp']
+        y = rng.random()
+        if y < 0.25:
+            resp['terminal'] = 'error'
+        elif y < 0.35:
+            resp['terminal'] = 'never'
+        x = rng.random()
+        n = len(resp['elems'])
+        if x < 0.15:
+            spec['cancel_after'] = 0
+        elif x < 0.4:
+            spec['cancel_after'] = rng.randrange(1, n + 2)
+        elif x < 0.55 or resp['terminal'] == 'never':
+            spec['cancel_delay'] = draw_wait(rng, timed)
+        if rng.random() < 0.3:
+            spec['extra_requests'] = [rng.choice([1, 3, MAX_N])]
+        if rng.random() < 0.35:
+            spec['late_actions'] = [{'do': rng.choice(['request', 'cancel']), 'n': rng.choice([1, 3, MAX_N]),
+                                     'wait': draw_wait(rng, timed)} for _ in range(rng.choice([1, 2]))]
+        if model == 'channel' and spec.get('up') is not None:
+            up = spec['up']
+            z = rng.random()
+            if z < 0.2:
+                up['terminal'] = 'error'
+            elif z < 0.3:
+                up['terminal'] = 'never'
+            if rng.random() < 0.25:
+                resp['up_cancel_after'] = rng.randrange(0, len(up['elems']) + 1)
+        if model == 'channel' and rng.random() < 0.1:
+            resp['publisher'] = False
+        if failures and rng.random() < 0.15:
+            resp['fail'] = rng.choice(['raise-before-await', 'raise-after-await'])
+    return spec
